@@ -11,8 +11,10 @@ linearizations, in-place modifications of caller arrays, kept output arrays, HDF
 `d` is an arbitrary body: `run`, `jacf` are arbitrary functions of the values the input arrays hold
 when the body starts, and the body may **update its input arrays in place** (`d.wr` arbitrary) and
 **return an input array itself as an output** (`d.aliasOf` arbitrary) — every theorem below that
-quantifies over `d` covers such bodies. The hash of each call is an arbitrary number carried by the
-operation.
+quantifies over `d` covers such bodies. (Correspondence with the code: `execute` is validated for
+all of them; `linearize` only for bodies that do not write, `d.wr = id` — the code differentiates a
+writing body at the values its run left in the arrays, the model at the call-time values; see
+notes/C05.md.) The hash of each call is an arbitrary number carried by the operation.
 -/
 import GemseoVerif.Lemmas.C05Hist
 import Mathlib.Analysis.Real.Sqrt
